@@ -2,6 +2,7 @@
 import Frugal.Proofs.ToWire
 import Frugal.Props.Instances
 import Frugal.Proofs.Strict
+import Frugal.Proofs.Holders
 namespace Frugal.C02
 open Frugal
 
@@ -32,6 +33,24 @@ theorem denotation_well_formed (S : Schema) (hS : S.ok = true) (ty : Ty) (v : Va
     (hnil : nilOK ty v = true) (ht : hasTy S ty v = true) (hf : sizesFit v = true) :
     wf (toWire S ty v) = true ∧ (toWire S ty v).tag = ty.wire :=
   ⟨toWire_wf S hS v ty hok hnil ht hf, toWire_tag S v ty hnil ht⟩
+
+/-- the same for values that carry retained unknown-field bytes (holders), at any nesting level:
+    when every holder is the serialisation of a list of well-formed fields (`fitH`, which also bounds
+    strings and containers by int32; every decoded value is such a value, C11), the encoder as written
+    produces the serialisation of the denotation `toWireH` — `toWire` with, in every struct, the fields
+    its holder serialises listed after the struct's own — and that denotation is a well-formed Thrift
+    value of the declared wire type.  `toWireH` coincides with `toWire` on values without holders. -/
+theorem encoding_with_retained_fields (S : Schema) (hS : S.ok = true) (ty : Ty) (v : Val) (hok : ty.ok = true)
+    (hnil : nilOK ty v = true) (ht : hasTy S ty v = true) (hf : fitH v = true) :
+    appendAny Generated.params S ty v = ser (toWireH S ty v) ∧ wf (toWireH S ty v) = true ∧
+      (toWireH S ty v).tag = ty.wire :=
+  ⟨by rw [appendAny_eq Instances.params_valid S hS v ty hok ht]
+      exact refEnc_eq_serH S hS v ty hok hnil ht (fitH_holdersOK v hf),
+   toWireH_wf S hS v ty hok hnil ht hf, toWireH_tag S v ty hnil ht⟩
+
+theorem retained_denotation_extends (S : Schema) (ty : Ty) (v : Val) (hn : noHolder v = true) :
+    toWireH S ty v = toWire S ty v :=
+  toWireH_of_noHolder S v ty hn
 
 /-- … and strictly so: every element / key / value code it carries is a protocol type code, empty
     containers included (`wf` itself only asks for a non-negative int8 there, see Wire.lean) -/
